@@ -82,11 +82,11 @@ PROPS = {
         trusted_base=COMMON_TB + ["rule table translated from /repo/rules/*.go (extract/extract.py) and proved equal to the model table in CE/Gen/Check.lean on every run", "Context methods and rules_event_rcv.go hand-modelled in CE/Rules/Machine.lean, tied by the RULES correspondence (verdict, rejection index, error class, forwarded events)"],
     ),
     "C22": dict(
-        claim="theorems posInt_minimal / negInt_minimal: for every integer below 2^64 the encoder's output length is among the lengths of the encodings the format offers (forms written from the type table, independently of the encoder's switch) and no offered encoding is shorter; posInt_reencode / negInt_reencode: what the decoder emits for an encoder-written integer encodes to the same bytes. "
+        claim="theorems posInt_minimal / negInt_minimal: for every integer below 2^64 the encoder's output length is among the lengths of the encodings the format offers (forms written from the type table, independently of the encoder's switch) and no offered encoding is shorter; posInt_reencode / negInt_reencode: what the decoder emits for an encoder-written integer encodes to the same bytes; structural_encoding_is_a_fixed_point: for EVERY document of structural events (containers, Booleans, null, integers of all widths and forms, identifiers, UIDs, strings and resource identifiers in short and chunk-header form, comments, padding), of any length and nesting, decoding the encoder's bytes and encoding the delivered events again yields exactly the same bytes (CE/Cbe/Reencode.lean: induction over the stream on top of the C01 stream round trip). "
               "Harness: single values (integers in every event form around every width boundary, float bit patterns incl. bfloat16/float32 exactness boundaries and subnormals, strings/arrays of length 0,1,14..17,64,130) are encoded by the real encoder and the length is compared with the driver's independent minimal-length oracle (CBE.MINLEN: significant-bit test for floats, short-header rule for arrays); streams: decode(encode(evs)) encoded again must be byte-identical",
-        note="partial: float narrowest-width and short-header minimality and stream idempotence are decided by the oracle on every run, not yet theorems. Trusted: as C01",
+        note="partial: float narrowest-width and typed-array short-header minimality, and the fixed point for floats / decimals / typed arrays, are decided by the oracle on every run, not yet theorems. Trusted: as C01",
         level="proof", n_quick=9000, n_thorough=600000, shards=16,
-        lean_modules=["CE.Props.C22", "CE.Cbe.Minimal"],
+        lean_modules=["CE.Props.C22", "CE.Cbe.Minimal", "CE.Cbe.Reencode"],
         rule="two thirds single values from boundary pools and random draws, one third generated rules-valid streams for the idempotence part; distinct by event text",
         trusted_base=COMMON_TB,
         assumptions=["IEEE-754 correct rounding of float64->float32 conversion (F32Conv)"],
